@@ -30,8 +30,10 @@ def vectors(rng, tier):
     return sorted(v)
 
 
-def routine_jobs(rng, tier):
+def routine_jobs(rng, tier, light=False):
     vs = vectors(rng, tier)
+    if light:       # C10's static complement: the store footprint does not need the dense length sweep
+        vs = vs[::4]
     jobs = [("helper_amd64.s", "needExpand", ac.ctx_needexpand([(0, 0, 0), (0, 0, 5), (3, 10, 7), (3, 10, 8), (16, 16, 1)])),
             ("helper_amd64.s", "copyAsm", ac.ctx_copy(range(0, 70) if tier == "quick" else range(0, 1101))),
             ("asm_amd64.s", "expandKeyAsm", ac.ctx_expandkey()),
@@ -53,11 +55,11 @@ def routine_jobs(rng, tier):
     return jobs
 
 
-def analyse(chk, tier, prefixes):
+def analyse(chk, tier, prefixes, light=False):
     """runs every routine; returns list of (routine, ctx, message) whose message starts with one
     of `prefixes`, and raises Infra for anything the machine could not interpret"""
     found, total_ctx, paths = [], 0, 0
-    for fname, rt, ctxs, arch in routine_jobs(chk.rng, tier):
+    for fname, rt, ctxs, arch in routine_jobs(chk.rng, tier, light):
         res, st = ac.run_routine(chk, fname, rt, ctxs, workers=8 if len(ctxs) > 8 else 2, arch=arch)
         chk.states += st["distinct"]
         chk.transitions += st["generated"]
